@@ -392,7 +392,7 @@ META = {
     'level': 'exploration',
     'explanation': "bounded stand-in (labelled) for the estimator clauses: the analyzers rest on scipy regression / Nelder-Mead / probit fits, which have no usable contract; "
                    "equivariance, permutation invariance, exact recovery and the likelihood ordering are evaluated on seeded synthetic test series. Proved (small P part): the "
-                   "finite / infinite zone selection of FatigueData partitions the tests at the highest run-out load, and rossow_cumfreqs.",
+                   "finite / infinite zone selection of FatigueData partitions the tests at the highest run-out load, the reported transition is 0 exactly when there is no run-out (any number n >= 1 of run-outs gives the half level above the highest one), and rossow_cumfreqs.",
     'not_decided': ["estimators beyond the enumerated data sets", "that Nelder-Mead never returns a point of lower likelihood than its start (checked on the data sets only)"],
     'trusted_base': ['scipy.stats.linregress / optimize.fmin'],
     'rule': "each (data set, analyzer, transformation) is one case",
